@@ -2,6 +2,10 @@
 package c18
 
 import (
+	"time"
+	"syscall"
+	"net"
+	"context"
 	"bytes"
 	"errors"
 	"fmt"
@@ -46,6 +50,103 @@ type Case struct {
 	ZeroReads   bool      `json:"zero_reads,omitempty"`
 	FaultKind   string    `json:"fault_kind,omitempty"` // error | eof | fail | short
 	K           int       `json:"k,omitempty"`
+	// ErrIdent: WHICH error value the faulty source returns (index into errIdents): callers of this library read
+	// from sockets, pipes, files and contexts, whose errors have identities of their own (deadline exceeded,
+	// connection reset, closed pipe ...). Every one of them is a failed read.
+	ErrIdent int `json:"err_ident,omitempty"`
+	// Src: the dynamic type of the source (index into srcKinds): a plain io.Reader, or one that ALSO has the methods
+	// of a connection (SetReadDeadline ...), io.WriterTo, io.ByteReader - code that special-cases capabilities of
+	// its source must still report what the source reports.
+	Src int `json:"src,omitempty"`
+}
+
+type timeoutErr struct{}
+
+func (timeoutErr) Error() string   { return "verif: i/o timeout" }
+func (timeoutErr) Timeout() bool   { return true }
+func (timeoutErr) Temporary() bool { return true }
+
+var errIdents = []struct {
+	name string
+	err  error
+}{
+	{"injected", errInjected},
+	{"os.ErrDeadlineExceeded", os.ErrDeadlineExceeded},
+	{"net.OpError(deadline)", &net.OpError{Op: "read", Net: "tcp", Err: os.ErrDeadlineExceeded}},
+	{"context.DeadlineExceeded", context.DeadlineExceeded},
+	{"context.Canceled", context.Canceled},
+	{"io.ErrClosedPipe", io.ErrClosedPipe},
+	{"ECONNRESET", &net.OpError{Op: "read", Net: "tcp", Err: os.NewSyscallError("read", syscall.ECONNRESET)}},
+	{"io.ErrNoProgress", io.ErrNoProgress},
+	{"io.ErrShortBuffer", io.ErrShortBuffer},
+	{"net.ErrClosed", net.ErrClosed},
+	{"os.ErrClosed", os.ErrClosed},
+	{"timeout-interface", timeoutErr{}},
+	{"EAGAIN", syscall.EAGAIN},
+	{"EINTR", syscall.EINTR},
+}
+
+var srcKinds = []string{"reader", "conn-like", "writer-to", "byte-reader"}
+
+// connLike: a source with the method set of a network connection or a file
+type connLike struct{ io.Reader }
+
+func (connLike) SetReadDeadline(time.Time) error  { return nil }
+func (connLike) SetDeadline(time.Time) error      { return nil }
+func (connLike) SetWriteDeadline(time.Time) error { return nil }
+func (connLike) Close() error                     { return nil }
+func (connLike) Write(p []byte) (int, error)      { return len(p), nil }
+
+// writerTo: a source that offers io.WriterTo (io.Copy prefers it): it forwards what Read gives, errors included
+type writerTo struct{ io.Reader }
+
+func (w writerTo) WriteTo(dst io.Writer) (int64, error) {
+	var n int64
+	buf := make([]byte, 512)
+	for {
+		k, err := w.Reader.Read(buf)
+		if k > 0 {
+			m, werr := dst.Write(buf[:k])
+			n += int64(m)
+			if werr != nil {
+				return n, werr
+			}
+		}
+		if err == io.EOF {
+			return n, nil
+		}
+		if err != nil {
+			return n, err
+		}
+	}
+}
+
+// byteReader: a source that offers io.ByteReader (decoders use it to avoid their own buffering)
+type byteReader struct{ io.Reader }
+
+func (b byteReader) ReadByte() (byte, error) {
+	var one [1]byte
+	for {
+		n, err := b.Reader.Read(one[:])
+		if n == 1 {
+			return one[0], nil
+		}
+		if err != nil {
+			return 0, err
+		}
+	}
+}
+
+func wrapSrc(kind int, r io.Reader) io.Reader {
+	switch kind % len(srcKinds) {
+	case 1:
+		return connLike{r}
+	case 2:
+		return writerTo{r}
+	case 3:
+		return byteReader{r}
+	}
+	return r
 }
 
 var readFaultKinds = []string{"error", "eof", "error-with-data", "error-with-data-then-eof", "error-then-eof", "error-wrapping-eof", "error-unexpected-eof", "error-wrapping-eof-with-data", "error-once-then-continue"}
@@ -441,7 +542,7 @@ func run(c *h.Ctx, cs Case) {
 	case "chunk":
 		r := &faultReader{data: art, limit: -1, chunk: cs.Chunk, dataWithEOF: cs.DataWithEOF, zeroReads: cs.ZeroReads}
 		var got outcome
-		if pn, pv, _ := h.Try(func() { got = readStream(cs, b.kind, r) }); pn {
+		if pn, pv, _ := h.Try(func() { got = readStream(cs, b.kind, wrapSrc(cs.Src, r)) }); pn {
 			c.Fail("C18/read/panic/"+api, "stream reader panicked: %v", pv)
 			return
 		}
@@ -455,7 +556,7 @@ func run(c *h.Ctx, cs Case) {
 			return
 		}
 		k := cs.K % len(art)
-		ferr := errInjected
+		ferr := errIdents[cs.ErrIdent%len(errIdents)].err
 		if cs.FaultKind == "eof" {
 			ferr = io.EOF
 		} else {
@@ -483,9 +584,12 @@ func run(c *h.Ctx, cs Case) {
 			r.thenEOF = true
 		}
 		var got outcome
-		if pn, pv, _ := h.Try(func() { got = readStream(cs, b.kind, r) }); pn {
+		if pn, pv, _ := h.Try(func() { got = readStream(cs, b.kind, wrapSrc(cs.Src, r)) }); pn {
 			c.Fail("C18/read/panic/"+api, "stream reader panicked with a fault after %d bytes: %v", k, pv)
 			return
+		}
+		if cs.ErrIdent%len(errIdents) != 0 || cs.Src%len(srcKinds) != 0 {
+			c.P.Class("readfault-source:" + srcKinds[cs.Src%len(srcKinds)] + ":" + errIdents[cs.ErrIdent%len(errIdents)].name)
 		}
 		legit, nblocks := false, 0
 		if cs.FaultKind == "eof" {
@@ -505,7 +609,7 @@ func run(c *h.Ctx, cs Case) {
 			}
 			c.P.Class("readfault-legit-cut:" + api)
 		} else if !got.err {
-			c.Fail("C18/read/fault-swallowed/"+cs.FaultKind+"/"+api, "reader fault (%s) after %d of %d bytes, but the call returned %s without error", cs.FaultKind, k, len(art), got)
+			c.Fail("C18/read/fault-swallowed/"+cs.FaultKind+"/"+api, "reader fault (%s, error value %s, source type %s) after %d of %d bytes, but the call returned %s without error", cs.FaultKind, errIdents[cs.ErrIdent%len(errIdents)].name, srcKinds[cs.Src%len(srcKinds)], k, len(art), got)
 		}
 		c.P.Class("readfault:" + cs.FaultKind + ":" + api)
 		if k > 0 {
@@ -650,6 +754,9 @@ func draw(t *rapid.T) Case {
 	cs.Toks = drawToks(t, n)
 	cs.Op = rapid.SampledFrom([]string{"chunk", "chunk", "readfault", "readfault", "writefault"}).Draw(t, "op")
 	cs.Chunk = rapid.SliceOfN(rapid.IntRange(1, 64), 0, 4).Draw(t, "chunk")
+	if rapid.Bool().Draw(t, "typedsrc") {
+		cs.Src = rapid.IntRange(0, len(srcKinds)-1).Draw(t, "src")
+	}
 	switch cs.Op {
 	case "chunk":
 		cs.DataWithEOF = rapid.Bool().Draw(t, "dweof")
@@ -657,6 +764,9 @@ func draw(t *rapid.T) Case {
 	case "readfault":
 		cs.FaultKind = rapid.SampledFrom(readFaultKinds).Draw(t, "fk")
 		cs.K = rapid.IntRange(0, 20000).Draw(t, "k")
+		if rapid.Bool().Draw(t, "identified") {
+			cs.ErrIdent = rapid.IntRange(0, len(errIdents)-1).Draw(t, "errident")
+		}
 	default:
 		cs.FaultKind = rapid.SampledFrom([]string{"", "fail", "short"}).Draw(t, "wfk")
 		cs.K = rapid.IntRange(0, 500).Draw(t, "wk")
@@ -748,6 +858,18 @@ func TestFaultEnumeration(t *testing.T) {
 							cs.Chunk = []int{1}
 						}
 						prop.One(t, cs)
+					}
+				}
+				// every error identity x every source type, at both ends, in the middle and at the section boundaries' neighbours
+				for _, k := range []int{0, 1, len(b.bytes) / 3, len(b.bytes) / 2, len(b.bytes) - 1, len(b.bytes)} {
+					for ei := range errIdents {
+						for si := range srcKinds {
+							for _, fk := range []string{"error", "error-with-data"} {
+								cs := base
+								cs.Op, cs.FaultKind, cs.K, cs.ErrIdent, cs.Src = "readfault", fk, k, ei, si
+								prop.One(t, cs)
+							}
+						}
 					}
 				}
 				// write faults at every call index
